@@ -6,7 +6,7 @@ META = dict(
               "timers under a substituted clock, canonical-state dedupe (time-translation invariant), reference model compared after every step",
     text="Timer, MonoTimer (with and without retrograde compensation) and StoreTimer, each with initial duration 0 and 1, are driven by a fake clock "
          "(ioflo.aid.timing.time replaced by an object whose time() returns a harness variable; StoreTimer reads a Stamper): every history up to "
-         "depth 5 (quick) / 7 (thorough) of clock +0.25, +1, -0.5, restart(), restart(start), restart(duration), repeat(), extend(), extend(+x), "
+         "depth 5 (quick) / 9 (thorough) of clock +0.25, +1, -0.5, restart(), restart(start), restart(duration), repeat(), extend(), extend(+x), "
          "extend(-x) and, for MonoTimer where reading has a side effect, reads of elapsed / remaining / expired.  After every step start, stop, duration "
          "(and latest) of the real timer must equal the model, elapsed == max(0, clock - start), remaining == max(0, stop - clock), expired == "
          "(clock >= stop); the MonoTimer model first shifts start and stop by a backward jump since the last look (or raises TimerRetroError) and then "
@@ -271,7 +271,7 @@ def explore(arg):
 
 def run():
     ck = core.Check("C42", "model_checking", META["technique"])
-    depth = 5 if core.TIER == "quick" else 7
+    depth = 5 if core.TIER == "quick" else 9
     ck.merge(core.pmap(explore, [(i, depth) for i in range(len(CONFIGS))]))
     ck.assumptions = [
         "clock seam: ioflo.aid.timing.time (module attribute) replaced by an object with time(); StoreTimer reads a timing.Stamper; the real clock is never used",
